@@ -170,7 +170,7 @@ class MPEGAdaption(object):
             offset += 6
 
         if self.splicing_flag:
-            self.splice_countdown = struct.unpack_from(">B", buffer, offset)
+            (self.splice_countdown,) = struct.unpack_from(">B", buffer, offset)
             offset += 1
 
         if self.transpart_flag:
